@@ -706,7 +706,14 @@ def build_data(step, ctx):
         return None, [], None
     amap = d.get('map', {})     # dataset name -> array id
     if route == 'dict':
-        dd = {k: get_array(aid, ctx) for k, aid in amap.items()}
+        if d.get('same_dict') and ctx.get('last_dict') is not None:
+            # the caller keeps ONE dict object and changes its content between the writes
+            dd = ctx['last_dict']
+            dd.clear()
+            dd.update({k: get_array(aid, ctx) for k, aid in amap.items()})
+        else:
+            dd = {k: get_array(aid, ctx) for k, aid in amap.items()}
+        ctx['last_dict'] = dd
         return dd, [], dd
     if route == 'struct':
         fields = []
